@@ -55,6 +55,10 @@ func NewC12Node(r *Replica) *C12Node {
 	n.Proposals, n.PendingProofs = pengings.NewProposals(r.Chain, r.AppState, r.Offline, r.Upgrader, r.Stats)
 	n.Flipper = flip.NewFlipper(r.DB, r.Ipfs, n.KeysPool, r.TxPool, r.SecStore, r.AppState, r.Bus)
 	n.Snapshots = state.NewSnapshotManager(r.DB, r.AppState.State, r.Bus, r.Ipfs, r.Cfg)
+	// the victim is only ever advanced by the downloader's consumers, i.e. while the node is
+	// syncing (Downloader.startSync -> sm.StartSync()): no snapshot writer goroutine is started
+	// on AddBlock (it would race with the harness' rollback, not with anything a peer sent)
+	n.Snapshots.StartSync()
 	n.KeysPool.Initialize(r.Chain.Head)
 	n.Votes.Initialize(r.Chain.Head)
 	n.Flipper.Initialize()
@@ -94,7 +98,9 @@ type C12Options struct {
 func C12Build(o C12Options) (*C12Env, error) {
 	e := &C12Env{}
 	opt := Options{Seed: o.Seed, NNodes: 3, NIdent: 14, NAccounts: 6, GodIsIdentity: o.Seed%2 == 1,
-		ValidationInterval: 50 * time.Minute, AllValidated: false}
+		ValidationInterval: 70 * time.Minute, AllValidated: false,
+		// long sessions: room for a dozen heads inside one ceremony period (search for a head at which proposers win the sortition)
+		FlipLottery: 6 * time.Minute, ShortSession: 5 * time.Minute, LongSession: 8 * time.Minute}
 	opt.StartTime = time.Date(2023, 8, 7+int(o.Seed%7), 6+int(o.Seed%13), 0, 0, 0, time.UTC)
 	w := NewWorld(opt)
 	e.W = w
@@ -128,8 +134,8 @@ func C12Build(o C12Options) (*C12Env, error) {
 	if err := w.c12AdvanceTo(o.Period); err != nil {
 		e.note("could not reach period %d: %v", o.Period, err)
 	}
-	// a head at which at least two node replicas win the proposer sortition
-	for try := 0; try < 25; try++ {
+	// a head at which node replicas win the proposer sortition (without leaving the period)
+	for try := 0; try < 60; try++ {
 		wins := 0
 		for _, r := range w.Replicas {
 			if r.Observer || !r.CanPropose() {
@@ -139,15 +145,38 @@ func C12Build(o C12Options) (*C12Env, error) {
 				wins++
 			}
 		}
-		if wins >= 2 || try == 24 {
+		if wins >= 2 || wins == 1 && try >= 8 {
 			break
 		}
+		st := w.View().AppState.State
 		if o.Period != state.NonePeriod {
-			break // do not leave the period
+			// would the next block leave the period?
+			nvt := st.NextValidationTime()
+			next := w.Now().Add(11 * time.Second)
+			var end time.Time
+			switch o.Period {
+			case state.FlipLotteryPeriod:
+				end = nvt
+			case state.ShortSessionPeriod:
+				end = nvt.Add(w.Opt.ShortSession)
+			case state.LongSessionPeriod:
+				end = nvt.Add(w.Opt.ShortSession + w.Opt.LongSession)
+			default:
+				end = next
+			}
+			if !next.Before(end.Add(-2 * time.Second)) {
+				break
+			}
+			w.Tick(11 * time.Second)
+		} else {
+			w.Tick(15 * time.Second)
 		}
-		w.Tick(15 * time.Second)
 		if res := w.NextBlock(0); len(res.Errs) > 0 {
 			return nil, fmt.Errorf("sortition search: %v", res.Errs)
+		}
+		if w.View().AppState.State.ValidationPeriod() != o.Period && o.Period != state.NonePeriod {
+			e.note("left period %d while searching a winning head", o.Period)
+			break
 		}
 	}
 	e.H = twin.Head().Height()
